@@ -398,7 +398,7 @@ CHECKS = {
         bounds={"quick": (4, 3), "thorough": (6, 4)}, own_findings=[],
         assumptions=PERSIST_ASSUME, model="snap"),
     "C19": Composite([SeqCheck(
-        drivers={"quick": [["-family", f, "-n", "90", "-len", "40"] for f in ("kv", "hash", "list", "set", "zset", "expiry", "multidb")],
+        drivers={"quick": [["-family", f, "-n", "60", "-len", "40"] for f in ("kv", "hash", "list", "set", "zset", "expiry", "multidb")],
                  "thorough": [["-family", f, "-n", "1200", "-len", "60"] for f in ("kv", "hash", "list", "set", "zset", "expiry", "multidb")]},
         mc={"module": "MC_Store", "consts": mc_store(2, 3), "invariants": ["TypeOK", "MemZeroEmpty", "MemAdditive"],
             "properties": ["MemFrame"]},
@@ -409,7 +409,7 @@ CHECKS = {
         # the figure under a memory limit: refused writes (noeviction) and evictions must leave it equal to the
         # accounted size of what is stored (Trace_Evict: e.mem = MemOf(dataset) after every step)
         TraceModelCheck(
-            jobs={"quick": [["evict", "-n", "12", "-len", "30", "-policies", "noeviction,allkeys-lfu,volatile-lfu,allkeys-random,volatile-random"]],
+            jobs={"quick": [["evict", "-n", "8", "-len", "30", "-policies", "noeviction,allkeys-lfu,volatile-lfu,allkeys-random,volatile-random"]],
                   "thorough": [["evict", "-n", "100", "-len", "40", "-policies", "noeviction,allkeys-lfu,volatile-lfu,allkeys-random,volatile-random"]]},
             trace_spec="Trace_Evict", models={"quick": [], "thorough": []},
             rule="one event = one command on a real server with a memory limit (policies noeviction, LFU and random); after every command "
